@@ -74,6 +74,8 @@ def gen_action(rng, kinds, msgs=True):
         action['msg'] = rng.choice([None, '', f'{kind}-{rng.randrange(3)}'])
     if kind == 'fail':
         action['msg'] = f'fail-{rng.randrange(3)}'
+        if rng.random() < 0.4:
+            action['exc'] = rng.choice(sorted(programs.PROGRAM_ERRORS))  # also an instance of a builtin exception type
     if kind == 'callback':
         action['fail'] = rng.random() < 0.6
     return action
